@@ -100,7 +100,9 @@ CONSTANTS Addr,       \* record: instance id -> address token
           Boot,       \* nodes that are up and mutually known when the history starts (see Init)
           CrashSet,   \* nodes that may crash
           StopSet,    \* nodes that may stop gracefully
-          Sync        \* TRUE: a node publishes only when nothing is in flight (see above)
+          Sync,       \* TRUE: a node publishes only when nothing is in flight (see above)
+          TrackAge    \* TRUE: count the ticks per node as well (age; needed by the per-peer timed
+                      \*   invariants, multiplies the states of a timed configuration by 2-3)
 
 VARIABLES status, ent, hashed, hashIds, sincePub, fl, quiet, age, events, fails, slow, fired, act
 
@@ -277,7 +279,7 @@ Advance ==
   /\ fl' = [r \in Nodes |-> [m \in Nodes |-> [k \in Kinds |-> IF fl[r][m][k] >= 0 THEN fl[r][m][k] + 1 ELSE -1]]]
   /\ sincePub' = [n \in Nodes |-> IF status[n] = "up" THEN (IF sincePub[n] < Rhi THEN sincePub[n] + 1 ELSE Rhi) ELSE 0]
   /\ quiet' = IF TrackQuiet /\ quiet < Bound /\ (\A n \in Up : ~slow[n]) THEN quiet + 1 ELSE quiet  \* settling starts at recovery
-  /\ age' = [n \in Nodes |-> IF TrackQuiet /\ status[n] # "new" /\ age[n] < AgeCap /\ ~slow[n] THEN age[n] + 1 ELSE age[n]]
+  /\ age' = [n \in Nodes |-> IF TrackAge /\ status[n] # "new" /\ age[n] < AgeCap /\ ~slow[n] THEN age[n] + 1 ELSE age[n]]
   /\ fired' = {}
   /\ UNCHANGED <<status, hashed, hashIds, events, fails, slow>>
   /\ act' = [name |-> "Advance"]
